@@ -380,5 +380,10 @@ def run(chk, facts, info):
     format_rule(chk, facts, 'C07-R3', ['plist.c', 'pbind.c', 'alink.c'])
     rule_r45(chk, facts)
     rule_r6(chk, facts)
+    chk.rule('C07-R7', 'in plist, pbind and alink (and the shared tool library), every ChkIO() call stands under a '
+             'failure test of the operation it checks or is preceded on every path by errno = 0', min_instances=40)
+    n7 = errno_rule(chk, facts, 'C07-R7', ['plist', 'pbind', 'alink'])
+    if n7 < 40:
+        raise AnalysisBroken('only %d ChkIO call sites found in the tools' % n7)
     chk.note('Decided: field-by-field reader/writer conformance of PBIND, short/long header agreement, bindings of '
              'PLIST\'s printed values and totals, format/argument agreement. Not decided: per-record listing values.')
